@@ -122,6 +122,16 @@ class WindowedCoordinator:
                     )
                     break
 
+            # Events exchanged at the last barrier may be due exactly at
+            # end_time. They are still live (a sequential run delivers them),
+            # so give every partition one more pass up to end_time.
+            if current_time >= self._end_time and any(
+                sim._event_heap.has_events() for sim in self._simulations.values()
+            ):
+                for name in self._simulations:
+                    _, elapsed = self._run_partition_window(name, self._end_time)
+                    partition_wall_times[name] += elapsed
+
         # Finalize each partition
         partition_summaries = {}
         for name, sim in self._simulations.items():
